@@ -135,14 +135,14 @@ def load_cfg(name):
     return json.load(open(p)), p
 
 
-def explore(cfgname, faults="", max_states=200000, timeout=3000, cache=True, depth=0):
+def explore(cfgname, faults="", max_states=200000, timeout=3000, cache=True, depth=0, order=""):
     """Run the real-code explorer for one configuration; returns (prefix, meta).
     Results are cached under a key that covers /repo's working tree, the harness, the specs and the
     configuration, so a changed tree is always re-explored; concurrent checks serialise per key."""
     import fcntl
     exe = build_harness()
     cfg, cfgpath = load_cfg(cfgname)
-    key = "%s-%s-f%s-m%d-d%d" % (tree_hash(), cfgname, faults or "none", max_states, depth)
+    key = "%s-%s-f%s-m%d-d%d%s" % (tree_hash(), cfgname, faults or "none", max_states, depth, ("-" + order) if order else "")
     os.makedirs(os.path.join(BUILD, "cache"), exist_ok=True)
     cdir = os.path.join(BUILD, "cache", key)
     prefix = os.path.join(cdir, "x")
@@ -154,7 +154,7 @@ def explore(cfgname, faults="", max_states=200000, timeout=3000, cache=True, dep
         tmp = cdir + ".tmp"
         shutil.rmtree(tmp, ignore_errors=True)
         os.makedirs(tmp)
-        env = dict(os.environ, VERIF_FAULTS=faults)
+        env = dict(os.environ, VERIF_FAULTS=faults, VERIF_ORDER=order)
         cmd = [exe, "-mode", "explore", "-cfg", cfgpath, "-out", os.path.join(tmp, "x"), "-max-states", str(max_states), "-depth", str(depth)]
         try:
             r = subprocess.run(cmd, cwd=REPO, env=env, stdout=subprocess.PIPE, stderr=subprocess.DEVNULL, text=True, timeout=timeout)
